@@ -5,6 +5,8 @@ package textwire
 import (
 	"reflect"
 	"strconv"
+
+	"github.com/textwire/textwire/v2/object"
 )
 
 type C12Emb struct{ Q int }
@@ -238,4 +240,51 @@ func HarnessC12Unsupported() {
 	out, err := EvaluateString("x{{ s }}", data)
 	vCover("returned")
 	vAssert(err != nil && out == "", "unsupported-kind-at-any-depth-is-an-error")
+}
+
+// HarnessC12Numbers: every integer of every width (unsigned ones within the int64 range) and every float becomes the
+// template number of the same value. The value is symbolic over its whole range; the result object is inspected
+// directly because formatted symbolic numbers have no concrete length.
+func HarnessC12Numbers() {
+	v := vInt64("v")
+	u := vUint64("u")
+	vAssume(u <= 9223372036854775807)
+	var got object.Object
+	var want int64
+	switch vChoice("type", 11) {
+	case 0:
+		got, want = object.NativeToObject(v), v
+	case 1:
+		got, want = object.NativeToObject(int(v)), v
+	case 2:
+		got, want = object.NativeToObject(int32(v)), int64(int32(v))
+	case 3:
+		got, want = object.NativeToObject(int16(v)), int64(int16(v))
+	case 4:
+		got, want = object.NativeToObject(int8(v)), int64(int8(v))
+	case 5:
+		got, want = object.NativeToObject(u), int64(u)
+	case 6:
+		got, want = object.NativeToObject(uint(u)), int64(u)
+	case 7:
+		got, want = object.NativeToObject(uint32(u)), int64(uint32(u))
+	case 8:
+		got, want = object.NativeToObject(uint16(u)), int64(uint16(u))
+	case 9:
+		got, want = object.NativeToObject(uint8(u)), int64(uint8(u))
+	default:
+		// through a pointer and an interface slot
+		p := &u
+		got, want = object.NativeToObject([]any{&p}), int64(u)
+		arr, ok := got.(*object.Array)
+		vAssert(ok && len(arr.Elements) == 1, "slice-of-pointers-becomes-an-array")
+		got = arr.Elements[0]
+	}
+	vCover("converted")
+	i, ok := got.(*object.Int)
+	vAssert(ok, "integer-of-any-width-becomes-a-template-integer")
+	vAssert(i.Value == want, "integer-keeps-its-value")
+	f := vFloat64("f")
+	fo, ok := object.NativeToObject(f).(*object.Float)
+	vAssert(ok && (fo.Value == f || (fo.Value != fo.Value && f != f)), "float-keeps-its-value")
 }
